@@ -411,6 +411,9 @@ def Item.noBrace : Item → Bool
 
 def NoBrace (p : List Item) : Prop := ∀ it ∈ p, it.noBrace = true
 
+instance (p : List Item) : Decidable (WF p) := by unfold WF; infer_instance
+instance (p : List Item) : Decidable (NoBrace p) := by unfold NoBrace; infer_instance
+
 /-! ## `MacroMetadata` : views of `"path:line"` -/
 
 /-- `_calc_colon_separator_pos` : `rfind(':')` -/
@@ -498,6 +501,10 @@ def multiLine (msg : Str) : List Str := if msg = [] then [[]] else mlLoop (msg.l
 /-- the message pieces that are formatted, each as one statement -/
 def dispatch (addMetadata : Bool) (namedEmpty : Bool) (msg : Str) : List Str :=
   if addMetadata && namedEmpty then multiLine msg else [stripOneNl msg]
+
+/-- the statements one log call hands to a sink (`_write_log_statement` per piece) -/
+def statements (pattern : Str) (st : Stmt) (mv : MetaView) (addMetadata : Bool) (msg : Str) : List Result :=
+  (dispatch addMetadata (st.named.getD []).isEmpty msg).map fun piece => formatPattern pattern (valuation st mv piece)
 
 /-! ## Runtime metadata (`_apply_runtime_metadata`) -/
 
